@@ -4,14 +4,15 @@
    Z, positive, Q, nat stay Coq inductives. *)
 From Coq Require Import Extraction ExtrOcamlBasic ExtrOcamlString.
 From Coq Require Import ZArith QArith List String.
-From Pico Require Import Num PyStr Value Entry_E1 Entry_E4.
+From Pico Require Import Num PyStr Value Entry_E1 Entry_E4 Entry_E3.
 Import ListNotations.
 Local Open Scope string_scope.
 
 Definition dispatch (orc : oracle) (name : string) (v : value) : value :=
   match entry_E1 orc name v with Some r => r | None =>
   match entry_E4 orc name v with Some r => r | None =>
-  VL [VS "err"; VS "NoSuchEntry"] end end.
+  match entry_E3 orc name v with Some r => r | None =>
+  VL [VS "err"; VS "NoSuchEntry"] end end end.
 
 
 Extraction "picomodel.ml" dispatch.
